@@ -210,8 +210,7 @@ def run(ctx):
             if kind == 'output':
                 model = sorted((p, q) for p, row in enumerate(r) for q in row)
             else:
-                model = sorted((p, q) for p, row in enumerate(r)
-                               if isinstance(row[0], tuple) and row[0][0] == 'Some' for q in row[0][1])
+                model = sorted((p, q) for p, row in enumerate(r) for q in row[0])
             if sorted(set(model)) != links:
                 mism += 1
                 ctx.broken.append({'kind': 'correspondence', 'what': kind + ' links', 'config': cfg, 'op': op,
